@@ -3,6 +3,7 @@ package main
 import (
 	"flag"
 	"fmt"
+	"go/types"
 	"os"
 	"path/filepath"
 	"regexp"
@@ -189,10 +190,29 @@ func run(cfg *runCfg, mode string) int {
 			curSigs[f.String()] = ns
 		}
 	}
+	for _, pkg := range g.allPkgs {
+		if !strings.HasPrefix(pkg.Path(), modPath) {
+			continue
+		}
+		for _, name := range pkg.Scope().Names() {
+			if tn, ok := pkg.Scope().Lookup(name).(*types.TypeName); ok {
+				if st, ok := tn.Type().Underlying().(*types.Struct); ok {
+					var fs []string
+					for i := 0; i < st.NumFields(); i++ {
+						fs = append(fs, st.Field(i).Name())
+					}
+					curFields[pkg.Path()+"."+name] = fs
+				}
+			}
+		}
+	}
 	if mode != "baseline" {
 		var bf baselineFile
 		if loadJSON(filepath.Join(cfg.verif, "spec", "baseline_obligations.json"), &bf) && bf.Signatures != nil {
 			oldSigs = bf.Signatures
+		}
+		if bf.Fields != nil {
+			oldFields = bf.Fields
 		}
 	}
 
